@@ -235,9 +235,12 @@ func lenFactsBound(facts []cmpFact, s ssa.Value) (min int64, eqTo []ssa.Value) {
 
 // indexSafe decides whether slice[idx] at instruction `at` is protected by
 // dominating length facts. Returns a short justification.
-func indexSafe(at ssa.Instruction, slice, idx ssa.Value) (bool, string) {
+func indexSafe(at ssa.Instruction, slice, idx ssa.Value, baseMin int64) (bool, string) {
 	facts := cmpFactsAt(at.Block())
 	min, eqTo := lenFactsBound(facts, slice)
+	if baseMin > min {
+		min = baseMin
+	}
 	if k, ok := constInt(idx); ok {
 		if k >= 0 && min > k {
 			return true, "dominating test establishes len >= " + itoa(min)
